@@ -1280,6 +1280,23 @@ class Interp:
             n = f.id
             if kw and n not in ('sorted', 'int', 'bytes', 'max', 'min', 'divmod') and n in ('len', 'range', 'bytearray', 'reversed', 'list', 'sum', 'enumerate', 'zip'):
                 raise Unknown(f"{n}() with keyword arguments at line {e.lineno}")
+            if n in ('getattr', 'hasattr') and len(args) in (2, 3) and isinstance(args[1], AStr) and args[1].literal() is not None and not kw:
+                o_, a_ = args[0], args[1].literal()
+                if isinstance(o_, AObj):
+                    present = a_ in o_.attrs
+                    if n == 'hasattr':
+                        return present
+                    if present:
+                        return o_.attrs[a_]
+                    if len(args) == 3:
+                        return args[2]
+                    raise PyError('AttributeError', e.lineno)
+                if o_ is None or isinstance(o_, (bool, AInt, AStr, ABytes, AList, ADict)):
+                    if n == 'hasattr':
+                        return False if o_ is None else AOpaque('hasattr')
+                    if o_ is None and len(args) == 3:
+                        return args[2]
+                raise Unknown(f"{n}() of {type(o_).__name__} at line {e.lineno}")
             if n == 'map' and len(e.args) == 2 and not kw:
                 out_ = []
                 for el in self.iterate(args[1], e):
@@ -1559,6 +1576,14 @@ class Interp:
                     return o.items.setdefault(self.key_of(args[0], e), args[1])
                 if m == 'values':
                     return AList(list(o.items.values()))
+                if m == 'update' and len(args) == 1 and isinstance(args[0], ADict) and not kw:
+                    o.items.update(args[0].items); return None
+                if m == 'update' and not args and kw:
+                    o.items.update(kw); return None
+                if m == 'clear' and not args:
+                    o.items.clear(); return None
+                if m == 'copy' and not args:
+                    return ADict(o.items)
             if isinstance(o, AList):
                 if m == 'append':
                     o.items.append(args[0]); return None
@@ -1578,6 +1603,8 @@ class Interp:
                     return None
                 if m == 'copy' and not args:
                     return AList(o.items)
+                if m == 'count' and len(args) == 1:
+                    return AInt(sum(1 for x in o.items if self.truth(self.compare(ast.Eq(), x, args[0], e), e)))
                 if m == 'clear' and not args:
                     o.items.clear(); return None
                 if m == 'index' and len(args) == 1:
